@@ -415,6 +415,14 @@ def r20_unconditional_mutators(ctx):
     mutators.run_for(ctx, "C10")
 
 
+def r7_ack_list_starts_empty(ctx):
+    """The entity list registered for a mutate message starts empty: a recycled list that still names entities of an expired or acknowledged
+    message would let the acknowledgement of this message also confirm entities whose data travelled in another (possibly lost) message of
+    the split - the entity is then confirmed for a tick it received only partly (C11.R6 = C09.R1c restricted to the entity-list pool)."""
+    import rules.C11 as C11
+    C11.r6_ack_list_pool(ctx)
+
+
 RULES = [
     ("C10.R1", "message boundaries only between chunks; chunks are whole groups / single entities; one send per message; ack list per chunk", r1_boundaries, 12, ["default", "all-features", "server-only"]),
     ("C10.R2", "graphs rebuilt and every client's group buffers resized before changes are collected", r2_freshness, 5, ["default", "all-features", "server-only"]),
@@ -422,6 +430,7 @@ RULES = [
     ("C10.R4", "graph maintenance: observer wiring, dirty marking, rebuild", r4_wiring, 14, ["default", "all-features", "server-only"]),
     ("C10.R5", "removing a relation undoes every edge adding it created (parallel edges from the two add observers)", r5_edge_symmetry, 4, ["default", "all-features", "server-only"]),
     ("C10.R6", "the size tested against the client's maximum is the size of the message that is sent (every header term enters the packing test)", r6_tested_size_is_sent_size, 6, ["default", "all-features", "server-only"]),
+    ("C10.R7", "the entity list registered for a message starts empty: recycled lists are emptied when returned or taken (same rule as C11.R6)", r7_ack_list_starts_empty, 1, ["default", "all-features", "server-only"]),
     ("C10.R20", "mutators this property relies on always perform their effect (rules/mutators.py): no early return, no guard outside the allowed set", r20_unconditional_mutators, 2, ["default", "all-features"]),
 ]
 THOROUGH_CONFIGS = ["default", "all-features", "server-only"]
